@@ -1,5 +1,5 @@
 """Property -> rule composition.  Each function decides the statically decidable clauses of one property."""
-from .rules import kdefects, numeric, seed, typestate, ownership, clifford, circuit, stabilizer, adjoint, manifold, gellmann, twins, backend, masks, axes, pauli, convexroof, boundary, measure, relabel, angles, shapes
+from .rules import kdefects, numeric, seed, typestate, ownership, clifford, circuit, stabilizer, adjoint, manifold, gellmann, twins, backend, masks, axes, pauli, convexroof, boundary, measure, relabel, angles, shapes, hermitian
 
 M = 'numqi.'
 DECISION_C05 = ['numqi.entangle.ppt.is_ppt', 'numqi.entangle.ppt.is_generalized_ppt',
@@ -18,6 +18,10 @@ def c05(proj, rep, tier):
     rep.floor('T1 decision comparisons + PSD shift sites (C05)', n, 10)
     n = numeric.t2(proj, rep, DECISION_C05)
     rep.floor('T2 tolerance-direction sites (C05)', n, 6)
+    n = numeric.t3(proj, rep, DECISION_C05)
+    rep.floor('T3 thresholds checked against the precision class of the compared value', n, 6)
+    n = numeric.sv1(proj, rep, ['numqi.entangle.symext', 'numqi.entangle.ppt', 'numqi.entangle.cha', 'numqi.entangle._misc'])
+    rep.floor('SV1 SDP feasibility verdict sites', n, 2)
     n = kdefects.k1(proj, rep, ENTANGLE)
     rep.floor('K1 int()/float() casts of names in entangle criteria', n, 8)
     n = boundary.p1(proj, rep)
@@ -186,6 +190,8 @@ def c15(proj, rep, tier):
 def c16(proj, rep, tier):
     n = gellmann.g1(proj, rep)
     rep.floor('G1 layout obligations inside numqi.gellmann', n, 12)
+    n = gellmann.g4(proj, rep)
+    rep.floor('G4 linearity / with_I-order obligations', n, 3)
     nsite, ntyped = gellmann.g2(proj, rep, None)
     rep.floor('G2 synthesis call sites in the package', nsite, 20)
     rep.floor('G2 projected sites typed', ntyped, 10)
@@ -225,6 +231,8 @@ def c04(proj, rep, tier):
     rep.floor('D1/A1/A3 circuit sweep obligations', n, 17)
     n = relabel.r1(proj, rep)
     rep.floor('R1 leg-relabelling contractions (op_grad legs)', n, 7)
+    n = adjoint.a6(proj, rep, ['numqi._torch_op'])
+    rep.floor('A6 nonzero-index-table uses in the sqrtm backward', n, 1)
     backend.b1(proj, rep, ['numqi.gate._internal'], expect_match=B1_GATE)
     n = twins.tw(proj, rep, ['numqi.sim.state', 'numqi.sim._torch_utils', 'numqi._torch_op', 'numqi.qec._internal'])
     rep.floor('TW twin blocks in the backward helpers (grad / conj halves of the op_grad contraction)', n, 2)
@@ -237,6 +245,8 @@ def c19(proj, rep, tier):
     rep.floor('Q1 parser letters', n, 3)
     n = circuit.q2(proj, rep)
     rep.floor('Q2 enumeration obligations', n, 4)
+    n = circuit.q5(proj, rep)
+    rep.floor('Q5 count loops of the asymmetric error set', n, 2)
     n = circuit.q3(proj, rep)
     rep.floor('Q3 shipped codes', n, 8)
     n = circuit.d2(proj, rep)
@@ -262,6 +272,8 @@ def c10(proj, rep, tier):
     rep.floor('seed-accepting functions', nfun, 50)
     rep.floor('S2 nested seeded call sites', tot['S2'], 70)
     rep.floor('S4 generator draws', tot['S4'], 40)
+    n = hermitian.hm1(proj, rep, ['numqi.random._internal'])
+    rep.floor('HM1 self-adjoint compositions in the random generators', n, 8)
     rep.assume('calls through user callables (model(), gate.forward, theta0 callables) are not followed: the claim is '
                '"no seed leak in numqi\'s own code on the resolved paths"')
     rep.assume('bit-identical output additionally needs deterministic NumPy/LAPACK kernels (assumed)')
@@ -297,6 +309,8 @@ def c20(proj, rep, tier):
     rep.floor('T1 decision comparisons (C20)', n, 4)
     n = numeric.t2(proj, rep, DECISION_C20)
     rep.floor('T2 tolerance-direction sites (C20)', n, 3)
+    n = numeric.t3(proj, rep, DECISION_C20)
+    rep.floor('T3 thresholds checked against the precision class (C20)', n, 3)
     nsite, ntyped = gellmann.g2(proj, rep, ['numqi.matrix_space._misc'])
     rep.floor('G2 projected synthesis sites in matrix_space._misc', ntyped, 2)
     n = gellmann.g3(proj, rep, ['numqi.matrix_space._misc.get_matrix_orthogonal_basis',
